@@ -1,0 +1,328 @@
+//go:build verif
+// +build verif
+
+// Contracts for the rtmp package (build tag verif; never compiled into the library).
+// Specification source: Adobe RTMP 1.0 (Dec 2012) section 5.3.1 (chunk format: 5.3.1.1 basic header, 5.3.1.2 message
+// header types 0-3, 5.3.1.3 extended timestamp), 5.4 (protocol control messages), 6.2 / 7.1 (user control, commands),
+// and the statements of C01..C04, C07, C08.
+
+package rtmp
+
+import "io"
+
+func prim_sameslice(a, b []byte) bool {
+	return len(a) == len(b) && (len(a) == 0 || &a[0] == &b[0])
+}
+
+func prim_eqbytes(a, b []byte) bool {
+	if len(a) != len(b) {
+		return false
+	}
+	for i := range a {
+		if a[i] != b[i] {
+			return false
+		}
+	}
+	return true
+}
+
+func prim_fresh(a []byte) bool { return true } // "allocated during the call"; not observable at run time
+
+func prim_forall(n int, f func(i int) bool) bool {
+	for i := 0; i < n; i++ {
+		if !f(i) {
+			return false
+		}
+	}
+	return true
+}
+
+// ghost byte streams (engine primitives; bodies are never executed)
+func ghost_rd_pos(r io.Reader) int        { panic("ghost") }
+func ghost_old_rd_pos(r io.Reader) int    { panic("ghost") }
+func ghost_rd_len(r io.Reader) int        { panic("ghost") }
+func ghost_rd_at(r io.Reader, i int) byte { panic("ghost") }
+func ghost_wr_len(w io.Writer) int        { panic("ghost") }
+func ghost_old_wr_len(w io.Writer) int    { panic("ghost") }
+func ghost_wr_at(w io.Writer, i int) byte { panic("ghost") }
+func ghost_ioerr() error                  { panic("ghost") }
+func ghost_old_ioerr() error              { panic("ghost") }
+func ghost_root(err error) error          { panic("ghost") }
+
+// C08 for one call: a transport failure during the call surfaces as an error whose root cause is that failure.
+func spec_errKeepsRoot(err error) bool {
+	if ghost_old_ioerr() != nil {
+		return true
+	}
+	if ghost_ioerr() != nil {
+		return err != nil && ghost_root(err) == ghost_ioerr()
+	}
+	return true
+}
+
+// ---------- C01: chunk headers the writer generates (5.3.1) ----------
+
+// the messages of the statement: chunk stream id 2..63 (what the constructors assign), timestamp below 2^31,
+// payload up to the 24-bit limit
+func spec_wfMsg(m *Message) bool {
+	return m.betterCid >= 2 && m.betterCid <= 63 && m.Timestamp < 1<<31 && m.payloadLength < 1<<24
+}
+
+//@ requires (*Message).generateC0Header
+func req_c0(v *Message) bool { return spec_wfMsg(v) }
+
+// fmt(2)=0 csid(6) | timestamp(24) | message length(24) | message type id(8) | message stream id(32, little endian)
+// | extended timestamp(32) iff the 24-bit field is 0xFFFFFF
+//@ ensures (*Message).generateC0Header C01.c0.layout
+func ens_c0(v *Message, ret0 []byte, ret1 error) bool {
+	if ret1 != nil {
+		return false
+	}
+	ext := v.Timestamp >= 0xffffff
+	if !ext && len(ret0) != 12 || ext && len(ret0) != 16 {
+		return false
+	}
+	b := ret0
+	if b[0] != byte(v.betterCid) || b[0]>>6 != 0 {
+		return false
+	}
+	if !ext && (b[1] != byte(v.Timestamp>>16) || b[2] != byte(v.Timestamp>>8) || b[3] != byte(v.Timestamp)) {
+		return false
+	}
+	if ext && (b[1] != 0xff || b[2] != 0xff || b[3] != 0xff) {
+		return false
+	}
+	if b[4] != byte(v.payloadLength>>16) || b[5] != byte(v.payloadLength>>8) || b[6] != byte(v.payloadLength) || b[7] != byte(v.MessageType) {
+		return false
+	}
+	if b[8] != byte(v.streamID) || b[9] != byte(v.streamID>>8) || b[10] != byte(v.streamID>>16) || b[11] != byte(v.streamID>>24) {
+		return false
+	}
+	if ext && (b[12] != byte(v.Timestamp>>24) || b[13] != byte(v.Timestamp>>16) || b[14] != byte(v.Timestamp>>8) || b[15] != byte(v.Timestamp)) {
+		return false
+	}
+	return prim_fresh(ret0)
+}
+
+//@ requires (*Message).generateC3Header
+func req_c3(v *Message) bool { return spec_wfMsg(v) }
+
+// fmt(2)=3 csid(6), followed by the extended timestamp iff the message carries one (the Adobe convention the
+// reader mirrors)
+//@ ensures (*Message).generateC3Header C01.c3.layout
+func ens_c3(v *Message, ret0 []byte, ret1 error) bool {
+	if ret1 != nil {
+		return false
+	}
+	ext := v.Timestamp >= 0xffffff
+	if !ext && len(ret0) != 1 || ext && len(ret0) != 5 {
+		return false
+	}
+	b := ret0
+	if b[0] != 0xc0|byte(v.betterCid) {
+		return false
+	}
+	if ext && (b[1] != byte(v.Timestamp>>24) || b[2] != byte(v.Timestamp>>16) || b[3] != byte(v.Timestamp>>8) || b[4] != byte(v.Timestamp)) {
+		return false
+	}
+	return prim_fresh(ret0)
+}
+
+// ---------- C02: chunk basic header (5.3.1.1) ----------
+
+//@ requires (*Protocol).readBasicHeader
+func req_readBasicHeader(v *Protocol) bool { return v.r != nil }
+
+// 1 byte: ids 2..63; 2 bytes (low 6 bits 0): id = 64 + second byte; 3 bytes (low 6 bits 1): id = 64 + second + 256*third
+func spec_bhLen(b0 byte) int {
+	switch b0 & 0x3f {
+	case 0:
+		return 2
+	case 1:
+		return 3
+	}
+	return 1
+}
+
+//@ ensures (*Protocol).readBasicHeader C02.bh.accepts
+func ens_bh_accepts(v *Protocol, err error) bool {
+	r, p := v.r, ghost_old_rd_pos(v.r)
+	avail := ghost_rd_len(r) - p
+	if avail >= 1 && avail >= spec_bhLen(ghost_rd_at(r, p)) {
+		return err == nil
+	}
+	return err != nil
+}
+
+//@ ensures (*Protocol).readBasicHeader C02.bh.form1
+func ens_bh_form1(v *Protocol, format formatType, cid chunkID, err error) bool {
+	r, p := v.r, ghost_old_rd_pos(v.r)
+	if err != nil || ghost_rd_at(r, p)&0x3f < 2 {
+		return true
+	}
+	return ghost_rd_pos(r) == p+1 && uint8(format) == ghost_rd_at(r, p)>>6 && uint32(cid) == uint32(ghost_rd_at(r, p)&0x3f)
+}
+
+//@ ensures (*Protocol).readBasicHeader C02.bh.form2
+func ens_bh_form2(v *Protocol, format formatType, cid chunkID, err error) bool {
+	r, p := v.r, ghost_old_rd_pos(v.r)
+	if err != nil || ghost_rd_at(r, p)&0x3f != 0 {
+		return true
+	}
+	return ghost_rd_pos(r) == p+2 && uint8(format) == ghost_rd_at(r, p)>>6 && uint32(cid) == 64+uint32(ghost_rd_at(r, p+1))
+}
+
+//@ ensures (*Protocol).readBasicHeader C02.bh.form3
+func ens_bh_form3(v *Protocol, format formatType, cid chunkID, err error) bool {
+	r, p := v.r, ghost_old_rd_pos(v.r)
+	if err != nil || ghost_rd_at(r, p)&0x3f != 1 {
+		return true
+	}
+	return ghost_rd_pos(r) == p+3 && uint8(format) == ghost_rd_at(r, p)>>6 &&
+		uint32(cid) == 64+uint32(ghost_rd_at(r, p+1))+256*uint32(ghost_rd_at(r, p+2))
+}
+
+//@ ensures (*Protocol).readBasicHeader C08.rtmp.read-basic-header
+func ens_bh_err(err error) bool { return spec_errKeepsRoot(err) }
+
+//@ assigns (*Protocol).readBasicHeader ghost.rd(v.r), ghost.ioerr
+
+// ---------- C03: protocol control packets (5.4) and user control (6.2) ----------
+
+//@ ensures (*SetChunkSize).Size C03.scs.size
+func ens_scsSize(ret0 int) bool { return ret0 == 4 }
+
+//@ ensures (*SetChunkSize).MarshalBinary C03.scs.marshal
+func ens_scsMarshal(v *SetChunkSize, data []byte, err error) bool {
+	return err == nil && len(data) == 4 && uint32(data[0])<<24|uint32(data[1])<<16|uint32(data[2])<<8|uint32(data[3]) == v.ChunkSize && prim_fresh(data)
+}
+
+//@ ensures (*SetChunkSize).UnmarshalBinary C03.scs.unmarshal
+func ens_scsUnmarshal(v *SetChunkSize, data []byte, err error) bool {
+	if len(data) < 4 {
+		return err != nil
+	}
+	return err == nil && v.ChunkSize == uint32(data[0])<<24|uint32(data[1])<<16|uint32(data[2])<<8|uint32(data[3])
+}
+
+//@ assigns (*SetChunkSize).UnmarshalBinary v.*
+
+//@ ensures (*WindowAcknowledgementSize).MarshalBinary C03.was.marshal
+func ens_wasMarshal(v *WindowAcknowledgementSize, data []byte, err error) bool {
+	return err == nil && len(data) == 4 && uint32(data[0])<<24|uint32(data[1])<<16|uint32(data[2])<<8|uint32(data[3]) == v.AckSize && prim_fresh(data)
+}
+
+//@ ensures (*WindowAcknowledgementSize).UnmarshalBinary C03.was.unmarshal
+func ens_wasUnmarshal(v *WindowAcknowledgementSize, data []byte, err error) bool {
+	if len(data) < 4 {
+		return err != nil
+	}
+	return err == nil && v.AckSize == uint32(data[0])<<24|uint32(data[1])<<16|uint32(data[2])<<8|uint32(data[3])
+}
+
+//@ assigns (*WindowAcknowledgementSize).UnmarshalBinary v.*
+
+//@ ensures (*SetPeerBandwidth).MarshalBinary C03.spb.marshal
+func ens_spbMarshal(v *SetPeerBandwidth, data []byte, err error) bool {
+	return err == nil && len(data) == 5 && uint32(data[0])<<24|uint32(data[1])<<16|uint32(data[2])<<8|uint32(data[3]) == v.Bandwidth && data[4] == byte(v.LimitType) && prim_fresh(data)
+}
+
+//@ ensures (*SetPeerBandwidth).UnmarshalBinary C03.spb.unmarshal
+func ens_spbUnmarshal(v *SetPeerBandwidth, data []byte, err error) bool {
+	if len(data) < 5 {
+		return err != nil
+	}
+	return err == nil && v.Bandwidth == uint32(data[0])<<24|uint32(data[1])<<16|uint32(data[2])<<8|uint32(data[3]) && byte(v.LimitType) == data[4]
+}
+
+//@ assigns (*SetPeerBandwidth).UnmarshalBinary v.*
+
+// user control: event type (16), then 1 byte (0x1a), 8 bytes (SetBufferLength) or 4 bytes of event data: all 65536 types
+func spec_ucSize(t EventType) int {
+	if t == 0x1a {
+		return 3
+	}
+	if t == 3 {
+		return 10
+	}
+	return 6
+}
+
+// event data that fits the body width of its event type
+func spec_wfUserControl(v *UserControl) bool {
+	if v.EventType == 0x1a {
+		return v.EventData >= 0 && v.EventData <= 255 && v.ExtraData == 0
+	}
+	return v.EventType == 3 || v.ExtraData == 0
+}
+
+//@ ensures (*UserControl).Size C03.uc.size
+func ens_ucSize(v *UserControl, ret0 int) bool { return ret0 == spec_ucSize(v.EventType) }
+
+//@ ensures (*UserControl).MarshalBinary C03.uc.marshal
+func ens_ucMarshal(v *UserControl, data []byte, err error) bool {
+	if err != nil || len(data) != spec_ucSize(v.EventType) {
+		return false
+	}
+	if uint16(data[0])<<8|uint16(data[1]) != uint16(v.EventType) {
+		return false
+	}
+	if v.EventType == 0x1a {
+		return data[2] == byte(v.EventData)
+	}
+	if uint32(data[2])<<24|uint32(data[3])<<16|uint32(data[4])<<8|uint32(data[5]) != uint32(v.EventData) {
+		return false
+	}
+	if v.EventType == 3 {
+		return uint32(data[6])<<24|uint32(data[7])<<16|uint32(data[8])<<8|uint32(data[9]) == uint32(v.ExtraData)
+	}
+	return true
+}
+
+//@ ensures (*UserControl).UnmarshalBinary C03.uc.unmarshal
+func ens_ucUnmarshal(v *UserControl, old_v UserControl, data []byte, err error) bool {
+	if len(data) < 2 || len(data) < spec_ucSize(EventType(uint16(data[0])<<8|uint16(data[1]))) {
+		return err != nil
+	}
+	t := EventType(uint16(data[0])<<8 | uint16(data[1]))
+	if err != nil || v.EventType != t {
+		return false
+	}
+	if t == 0x1a {
+		return v.EventData == int32(data[2]) && v.ExtraData == old_v.ExtraData
+	}
+	if uint32(v.EventData) != uint32(data[2])<<24|uint32(data[3])<<16|uint32(data[4])<<8|uint32(data[5]) {
+		return false
+	}
+	if t == 3 {
+		return uint32(v.ExtraData) == uint32(data[6])<<24|uint32(data[7])<<16|uint32(data[8])<<8|uint32(data[9])
+	}
+	return v.ExtraData == old_v.ExtraData
+}
+
+//@ assigns (*UserControl).UnmarshalBinary v.*
+
+// every well-formed user control packet survives the wire (all 65536 event types)
+//@ requires lemma_C03_userControlRoundtrip
+func req_lemma_uc(p *UserControl) bool { return p != nil && spec_wfUserControl(p) }
+
+//@ lemma C03.uc.roundtrip
+func lemma_C03_userControlRoundtrip(p *UserControl, rest []byte) bool {
+	b, err := p.MarshalBinary()
+	if err != nil || len(b) != p.Size() {
+		return false
+	}
+	q := NewUserControl()
+	if err = q.UnmarshalBinary(append(b, rest...)); err != nil {
+		return false
+	}
+	return q.EventType == p.EventType && q.EventData == p.EventData && q.ExtraData == p.ExtraData && q.Size() == len(b)
+}
+
+// ---------- C07: packet decoders never panic ----------
+
+//@ safe (*SetChunkSize).UnmarshalBinary C07
+//@ safe (*WindowAcknowledgementSize).UnmarshalBinary C07
+//@ safe (*SetPeerBandwidth).UnmarshalBinary C07
+//@ safe (*UserControl).UnmarshalBinary C07
+//@ safe (*Protocol).readBasicHeader C07
